@@ -33,6 +33,8 @@ NAN64 = 0x7FF8000000000000
 # ----------------------------------------------------------------------------------------------------------------
 # type descriptions (JSON):  ["bool"] ["u",w,"s"|"t"] ["i",w] ["f",w,"s"|"t"] ["byte"] ["utf8"] ["void",w]
 #                            ["fix",e,n] ["var",e,n] ["struct",id,[[name|None,ty],...]] ["union",id,[[name,ty],...]] ["delim",inner,ext]
+# structures and unions may carry a 4th element: constants [[position, kind], ...] declared before field number `position`
+# (constants are attributes but never fields / variants; they exist on the implementation side only - the model has none)
 
 
 def align(t):
@@ -299,6 +301,17 @@ def gen_field_type(ctx, depth):
     return gen_prim(rng)
 
 
+def gen_consts(rng, nfields, p=0.3):
+    """[] or [[[position, kind], ...]]: constants interleaved among the fields (DSDL allows them anywhere)."""
+    if rng.random() >= p:
+        return []
+    return [[[rng.randrange(0, nfields + 1), rng.choice(["u8", "u16", "bool"])] for _ in range(rng.choice([1, 1, 2, 3]))]]
+
+
+def consts_of(t):
+    return t[3] if len(t) > 3 else []
+
+
 def gen_struct(ctx, depth, min_fields=0):
     rng = ctx.rng
     n = rng.choice([0, 1, 1, 2, 2, 3, 3, 4, ctx.max_fields]) if min_fields == 0 else rng.randrange(min_fields, ctx.max_fields + 1)
@@ -308,13 +321,13 @@ def gen_struct(ctx, depth, min_fields=0):
             fs.append([None, ["void", rng.choice([1, 2, 3, 5, 7, 8, 13, 32, 64, rng.randrange(1, 65)])]])
         else:
             fs.append(["f%d" % i, gen_field_type(ctx, depth)])
-    return ["struct", ctx.fresh(), fs]
+    return ["struct", ctx.fresh(), fs] + gen_consts(rng, len(fs))
 
 
 def gen_union(ctx, depth):
     rng = ctx.rng
     n = rng.choice([2, 2, 3, 3, 4, 5])
-    return ["union", ctx.fresh(), [["v%d" % i, gen_field_type(ctx, depth)] for i in range(n)]]
+    return ["union", ctx.fresh(), [["v%d" % i, gen_field_type(ctx, depth)] for i in range(n)]] + gen_consts(rng, n)
 
 
 def gen_extent(rng, inner):
@@ -580,6 +593,13 @@ def targeted():
     big = U([["bool"]] * 256 + [["u", 8, "s"]])
     out.append(mk_case(big, ["U", 256, ["I", 77]], False))
     out.append(mk_case(big, ["U", 255, ["B", True]], False))
+    # constants interleaved among the fields / variants (attributes that are never serialized)
+    uc = U([["u", 8, "s"], ["u", 16, "s"]]) + [[[0, "u8"], [1, "u16"], [2, "bool"]]]
+    out.append(mk_case(uc, ["U", 0, ["I", 5]], False))
+    out.append(mk_case(uc, ["U", 1, ["I", 515]], False))
+    sc = S([["u", 8, "s"], ["bool"], ["i", 16]]) + [[[0, "u8"], [1, "bool"], [1, "u16"], [3, "u8"]]]
+    out.append(mk_case(sc, ["T", [["I", 1], ["B", True], ["I", -2]]], False))
+    out.append(mk_case(sc, ["T", [None, None, None]], False))
     # header flag on a sealed type: ValueError
     out.append(mk_case(S([["bool"]]), ["T", [["B", True]]], True))
     # empty structure, structure of padding only
@@ -822,6 +842,16 @@ class Builder:
             return p.VoidType(t[1])
         raise ValueError(k)
 
+    def constant(self, ci, kind):
+        p = self.p
+        from pydsdl import _expression
+        CM = p.PrimitiveType.CastMode
+        if kind == "bool":
+            return p.Constant(p.BooleanType(), "K%d" % ci, _expression.Boolean(ci % 2 == 0))
+        if kind == "u16":
+            return p.Constant(p.UnsignedIntegerType(16, CM.SATURATED), "K%d" % ci, _expression.Rational(1000 + ci))
+        return p.Constant(p.UnsignedIntegerType(8, CM.SATURATED), "K%d" % ci, _expression.Rational(7 + ci))
+
     def build(self, t):
         p = self.p
         k = t[0]
@@ -831,8 +861,13 @@ class Builder:
             return p.VariableLengthArrayType(self.build(t[1]), t[2])
         if k in ("struct", "union"):
             attrs = []
-            for n, ft in t[2]:
+            per_pos = {}
+            for ci, (pos, kind) in enumerate(consts_of(t)):
+                per_pos.setdefault(min(pos, len(t[2])), []).append(self.constant(ci, kind))
+            for i, (n, ft) in enumerate(t[2]):
+                attrs.extend(per_pos.get(i, []))
                 attrs.append(p.PaddingField(self.build(ft)) if n is None else p.Field(self.build(ft), n))
+            attrs.extend(per_pos.get(len(t[2]), []))
             cls = p.StructureType if k == "struct" else p.UnionType
             return cls(name=type_name(t), version=self.Version(1, 0), attributes=attrs, deprecated=False, fixed_port_id=None,
                        source_file_path=self.Path("ns/T%d.1.0.dsdl" % t[1]), has_parent_service=False)
@@ -1190,6 +1225,8 @@ def describe(case, obs):
         else:
             kinds.add(k)
     keys += sorted("has:" + k for k in kinds)
+    if any(consts_of(x) for x in walk_types(t) if x[0] in ("struct", "union")):
+        keys.append("has:constants")
     if "err" in obs:
         keys.append("serialize-error:" + obs["err"])
     elif "bytes" in obs:
